@@ -249,6 +249,18 @@ func runScript(c *mon.Case, sp spec) {
 	}
 	ev("tx0 on pipe %d at %v", txs[0].PipeN, txs[0].T)
 	recvCall := mon.Go("Recv", func() (interface{}, error) { b, err := ctx.Recv(); return b, err })
+	// The verdicts below ("Recv fails with the cancellation error") are about a Recv that is waiting when the
+	// fault happens; a Recv that enters only after the request was cancelled legitimately reports "no request
+	// outstanding" instead.  So the script goes on only once Recv is really parked inside the library.
+	if !recvCall.ParkedIn("RecvMsg") {
+		if recvCall.Done() {
+			_, err, _ := recvCall.Result()
+			c.Violate("req/recv-returned-unanswered", "Recv on an outstanding, unanswered request returned %v before any fault or reply", err)
+		} else {
+			c.Inconclusive("Recv neither parked nor done")
+		}
+		return
+	}
 
 	lastTx := func() hx.WireTx { t := rig.TxsOf(fi, 1); return t[len(t)-1] }
 	expectResend := func(why string, prevN int) bool {
